@@ -245,12 +245,14 @@ Definition rej {T} (um : N -> T -> xtree -> option T) (D : T -> Prop) (t : xtree
   forall d acc v, um d acc t = Some v -> D v.
 
 Ltac step_cases H :=
+  cbv beta in H;
   repeat match type of H with
          | (if ?c then _ else _) = Some _ => destruct c eqn:?
          | match ?x with Some _ => _ | None => _ end = Some _ => destruct x eqn:?; [|discriminate H]
          | chk _ _ = Some _ => unfold chk in H
          end;
-  try (inversion H; subst; clear H).
+  try discriminate H;
+  try match type of H with Some _ = Some _ => inversion H; subst; clear H end.
 
 Lemma tr_fails t : rfc_dates_bad t = true -> forall d acc, um_time_range d acc t = None /\ um_expand d acc t = None.
 Proof.
@@ -547,3 +549,220 @@ Proof.
     match goal with H : um_comp_filter _ _ _ = Some c |- _ => exact (RJ _ _ _ H) end.
 Qed.
 Transparent um_comp_filter.
+
+(** ** filter and calendar-query: the filter part *)
+
+Definition cfbad (v : compFilterW) : Prop := decode_comp_filter v = false.
+
+Lemma cal_filter_mono d acc f v : um_cal_filter d acc f = Some v -> cfbad acc -> cfbad v.
+Proof.
+  unfold um_cal_filter. intros H D.
+  destruct (um_struct_nonelem_none _ _ _ _ _ _ _ _ H) as (n & l & a & ks & ->).
+  apply um_struct_some in H. destruct H as (a1 & a2 & H1 & H2 & ->). unfold no_text.
+  eapply fold_opt_pres; [|exact H2|].
+  - intros a0 x a0' _ H P. step_cases H; auto. eapply cf_mono; eauto.
+  - eapply fold_opt_pres; [|exact H1|exact D]. intros a0 x a0' _ H P. inversion H; subst; auto.
+Qed.
+
+Lemma cal_filter_rej f : some_kid f NS_CAL "comp-filter" rfc_cf_bad = true -> rej um_cal_filter cfbad f.
+Proof.
+  intros R d acc v H. unfold um_cal_filter in H.
+  destruct (um_struct_nonelem_none _ _ _ _ _ _ _ _ H) as (n & l & a & ks & ->).
+  apply um_struct_some in H. destruct H as (a1 & a2 & H1 & H2 & ->). unfold no_text.
+  apply some_kid_in in R. destruct R as (k & I & K & B). simpl in I.
+  apply kid_is_elem in K. destruct K as (a' & ks' & ->).
+  revert H2. apply (fold_opt_estab cfbad) with (x0 := XElem NS_CAL "comp-filter" a' ks'); auto.
+  - intros a0 x a0' _ H P. step_cases H; auto. eapply cf_mono; eauto.
+  - intros a0 a0' H. change (um_comp_filter (d + 1) a0 (XElem NS_CAL "comp-filter" a' ks') = Some a0') in H.
+    exact (cf_rej _ B _ _ _ H).
+Qed.
+
+Definition cal_query_kstep (d : N) (acc : calQueryW) (k : xtree) : option calQueryW :=
+  match um_sel d (cq_sel acc) k with
+  | None => None
+  | Some (Some s) => Some {| cq_sel := s; cq_filter := cq_filter acc |}
+  | Some None =>
+    if kid_local k "filter" then
+      match um_cal_filter (d + 1) (cq_filter acc) k with
+      | Some f => Some {| cq_sel := cq_sel acc; cq_filter := f |} | None => None end
+    else Some acc
+  end.
+
+Lemma um_cal_query_eq d acc t :
+  um_cal_query d acc t = um_struct (Some (NS_CAL, "calendar-query")) no_attr (cal_query_kstep d) no_text d acc t.
+Proof. reflexivity. Qed.
+
+Lemma um_sel_foreign d s k ns l a ks :
+  k = XElem ns l a ks -> String.eqb ns NS_DAV = false -> um_sel d s k = Some None.
+Proof. intros -> E. unfold um_sel, kid_is. rewrite E. reflexivity. Qed.
+
+Lemma cal_query_filter_rej t :
+  some_kid t NS_CAL "filter" (fun f => some_kid f NS_CAL "comp-filter" rfc_cf_bad) = true ->
+  rej um_cal_query (fun q => cfbad (cq_filter q)) t.
+Proof.
+  intros R d acc v H. rewrite um_cal_query_eq in H.
+  destruct (um_struct_nonelem_none _ _ _ _ _ _ _ _ H) as (n & l & a & ks & ->).
+  apply um_struct_some in H. destruct H as (a1 & a2 & H1 & H2 & ->). unfold no_text.
+  apply some_kid_in in R. destruct R as (k & I & K & B). simpl in I.
+  apply kid_is_elem in K. destruct K as (a' & ks' & ->).
+  revert H2. apply (fold_opt_estab (fun q => cfbad (cq_filter q))) with (x0 := XElem NS_CAL "filter" a' ks'); auto.
+  - intros a0 x a0' _ H P. unfold cal_query_kstep in H.
+    destruct (um_sel d (cq_sel a0) x) as [[s|]|]; [inversion H; subst; auto| |discriminate].
+    step_cases H; auto. simpl.
+    match goal with E : um_cal_filter _ _ _ = Some _ |- _ => exact (cal_filter_mono _ _ _ _ E P) end.
+  - intros a0 a0' H. unfold cal_query_kstep in H.
+    rewrite (um_sel_foreign d (cq_sel a0) _ NS_CAL "filter" a' ks' eq_refl eq_refl) in H.
+    change (kid_local (XElem NS_CAL "filter" a' ks') "filter") with true in H.
+    step_cases H; try discriminate. simpl.
+    match goal with E : um_cal_filter _ _ _ = Some _ |- _ => exact (cal_filter_rej _ B _ _ _ E) end.
+Qed.
+
+(** ** calendar-data: comp (recursive, the top one merges), expand *)
+
+Definition comp_astep (acc : compW) (a : xattr) : option compW :=
+  match acc with CompW n ap ps ac cs =>
+    if String.eqb (a_local a) "name" then Some (CompW (a_val a) ap ps ac cs) else Some acc end.
+
+Definition comp_kstep (d : N) (acc : compW) (k : xtree) : option compW :=
+  match acc with CompW n ap ps ac cs =>
+    if kid_local k "allprop" then
+      match into_flag d with Some v => Some (CompW n v ps ac cs) | None => None end
+    else if kid_local k "prop" then
+      match into_slice (um_named NS_CAL "prop") "" d ps k with
+      | Some v => Some (CompW n ap v ac cs) | None => None end
+    else if kid_local k "allcomp" then
+      match into_flag d with Some v => Some (CompW n ap ps v cs) | None => None end
+    else if kid_local k "comp" then
+      chk (d + 1) (match um_comp (d + 2) comp_zero k with
+                   | Some x => Some (CompW n ap ps ac (cs ++ [x])%list) | None => None end)
+    else Some acc end.
+
+Lemma um_comp_eq d acc t :
+  um_comp d acc t = um_struct (Some (NS_CAL, "comp")) comp_astep (comp_kstep d) no_text d acc t.
+Proof. destruct t; reflexivity. Qed.
+
+Definition compD (v : compW) : Prop :=
+  match v with CompW n ap ps ac cs =>
+    (ap = true /\ nonempty ps = true) \/ (ac = true /\ nonempty cs = true) \/
+    (exists c, In c cs /\ decode_comp c = false)
+  end.
+
+Lemma compD_iff v : decode_comp v = false <-> compD v.
+Proof.
+  destruct v as [n ap ps ac cs]. simpl. split.
+  - destruct (ap && nonempty ps) eqn:E1.
+    + intros _. apply andb_true_iff in E1. auto.
+    + destruct (ac && nonempty cs) eqn:E2.
+      * intros _. apply andb_true_iff in E2. auto.
+      * intros H. apply forallb_false_exists in H. auto.
+  - intros [[-> ->]|[[-> ->]|(c & I & F)]].
+    + reflexivity.
+    + destruct (ap && nonempty ps); reflexivity.
+    + destruct (ap && nonempty ps); [reflexivity|]. destruct (ac && nonempty cs); [reflexivity|].
+      eapply forallb_false_in; eauto.
+Qed.
+
+Lemma comp_astep_pres a0 x a' : comp_astep a0 x = Some a' -> compD a0 -> compD a'.
+Proof.
+  destruct a0 as [n ap ps ac cs]. simpl. destruct (String.eqb (a_local x) "name"); intros H; inversion H; auto.
+Qed.
+
+Opaque um_comp.
+Lemma comp_kstep_pres d a0 x a' : comp_kstep d a0 x = Some a' -> compD a0 -> compD a'.
+Proof.
+  destruct a0 as [n ap ps ac cs]. unfold comp_kstep. intros H D. step_cases H; auto; simpl in *.
+  - apply into_flag_true in Heqo. subst. destruct D as [[_ B]|D]; auto.
+  - apply into_slice_in in Heqo. destruct Heqo as (u & _ & ->).
+    destruct D as [[A B]|D]; auto. left. split; auto. apply nonempty_app.
+  - apply into_flag_true in Heqo. subst. destruct D as [D|[[_ B]|D]]; auto.
+  - destruct D as [D|[[A B]|(c0 & I & F)]]; auto.
+    + right. left. split; auto. apply nonempty_app.
+    + right. right. exists c0. split; auto. apply in_or_app; auto.
+Qed.
+
+Lemma comp_mono d acc t v : um_comp d acc t = Some v -> decode_comp acc = false -> decode_comp v = false.
+Proof.
+  rewrite um_comp_eq. intros H D. apply compD_iff in D. apply compD_iff.
+  destruct (um_struct_nonelem_none _ _ _ _ _ _ _ _ H) as (n & l & a & ks & ->).
+  apply um_struct_some in H. destruct H as (a1 & a2 & H1 & H2 & ->). unfold no_text.
+  eapply fold_opt_pres; [|exact H2|]; [intros; eapply comp_kstep_pres; eauto|].
+  eapply fold_opt_pres; [|exact H1|exact D]. intros; eapply comp_astep_pres; eauto.
+Qed.
+
+Lemma comp_rej t : rfc_comp_bad t = true -> rej um_comp (fun v => decode_comp v = false) t.
+Proof.
+  induction t as [ns l a ks IH| |] using xtree_ind'; try discriminate.
+  intros R d acc v H. apply compD_iff. rewrite um_comp_eq in H.
+  apply um_struct_some in H. destruct H as (a1 & a2 & H1 & H2 & ->). unfold no_text.
+  change (rfc_comp_bad (XElem ns l a ks)) with
+      ((has_kid (XElem ns l a ks) NS_CAL "allprop" && has_kid (XElem ns l a ks) NS_CAL "prop") ||
+       (has_kid (XElem ns l a ks) NS_CAL "allcomp" && has_kid (XElem ns l a ks) NS_CAL "comp") ||
+       some_kid (XElem ns l a ks) NS_CAL "comp" rfc_comp_bad) in R.
+  assert (PRES : forall a0 x a', In x ks -> comp_kstep d a0 x = Some a' -> compD a0 -> compD a')
+    by (intros; eapply comp_kstep_pres; eauto).
+  apply orb_true_iff in R. destruct R as [R|R3].
+  apply orb_true_iff in R. destruct R as [R1|R2].
+  - apply andb_true_iff in R1. destruct R1 as [RA RB].
+    apply has_kid_in in RA. destruct RA as (k1 & I1 & K1). simpl in I1.
+    apply kid_is_elem in K1. destruct K1 as (a' & ks' & ->).
+    apply has_kid_in in RB. destruct RB as (k2 & I2 & K2). simpl in I2.
+    apply kid_is_elem in K2. destruct K2 as (a'' & ks'' & ->).
+    assert (X1 : match a2 with CompW _ ap _ _ _ => ap = true end).
+    { revert H2. apply (fold_opt_estab (fun v => match v with CompW _ ap _ _ _ => ap = true end))
+                   with (x0 := XElem NS_CAL "allprop" a' ks'); auto.
+      - intros [n0 ap0 ps0 ac0 cs0] x a0' _ H P. unfold comp_kstep in H. step_cases H; fin.
+      - intros [n0 ap0 ps0 ac0 cs0] a0' H. simpl in H. step_cases H; fin. }
+    assert (X2 : match a2 with CompW _ _ ps _ _ => nonempty ps = true end).
+    { revert H2. apply (fold_opt_estab (fun v => match v with CompW _ _ ps _ _ => nonempty ps = true end))
+                   with (x0 := XElem NS_CAL "prop" a'' ks''); auto.
+      - intros [n0 ap0 ps0 ac0 cs0] x a0' _ H P. unfold comp_kstep in H. step_cases H; fin.
+      - intros [n0 ap0 ps0 ac0 cs0] a0' H. simpl in H. step_cases H; fin. }
+    destruct a2. left. auto.
+  - apply andb_true_iff in R2. destruct R2 as [RA RB].
+    apply has_kid_in in RA. destruct RA as (k1 & I1 & K1). simpl in I1.
+    apply kid_is_elem in K1. destruct K1 as (a' & ks' & ->).
+    apply has_kid_in in RB. destruct RB as (k2 & I2 & K2). simpl in I2.
+    apply kid_is_elem in K2. destruct K2 as (a'' & ks'' & ->).
+    assert (X1 : match a2 with CompW _ _ _ ac _ => ac = true end).
+    { revert H2. apply (fold_opt_estab (fun v => match v with CompW _ _ _ ac _ => ac = true end))
+                   with (x0 := XElem NS_CAL "allcomp" a' ks'); auto.
+      - intros [n0 ap0 ps0 ac0 cs0] x a0' _ H P. unfold comp_kstep in H. step_cases H; fin.
+      - intros [n0 ap0 ps0 ac0 cs0] a0' H. simpl in H. step_cases H; fin. }
+    assert (X2 : match a2 with CompW _ _ _ _ cs => nonempty cs = true end).
+    { revert H2. apply (fold_opt_estab (fun v => match v with CompW _ _ _ _ cs => nonempty cs = true end))
+                   with (x0 := XElem NS_CAL "comp" a'' ks''); auto.
+      - intros [n0 ap0 ps0 ac0 cs0] x a0' _ H P. unfold comp_kstep in H. step_cases H; fin.
+      - intros [n0 ap0 ps0 ac0 cs0] a0' H. simpl in H. step_cases H; fin. }
+    destruct a2. right. left. auto.
+  - apply some_kid_in in R3. destruct R3 as (k & I & K & B). simpl in I.
+    apply kid_is_elem in K. destruct K as (a' & ks' & ->).
+    rewrite Forall_forall in IH. pose proof (IH _ I B) as RJ.
+    revert H2. apply (fold_opt_estab compD) with (x0 := XElem NS_CAL "comp" a' ks'); auto.
+    intros [n0 ap0 ps0 ac0 cs0] a0' H. simpl in H. step_cases H. simpl.
+    right. right. exists c. split; [apply in_or_app; right; left; reflexivity|].
+    match goal with H : um_comp _ _ _ = Some c |- _ => exact (RJ _ _ _ H) end.
+Qed.
+Transparent um_comp.
+
+Lemma af_comp p t : rfc_comp_bad t = true -> rfc_comp_bad (afilter p t) = true.
+Proof.
+  induction t as [ns l a ks IH| |] using xtree_ind'; try discriminate.
+  intros R.
+  change (rfc_comp_bad (XElem ns l a ks)) with
+      ((has_kid (XElem ns l a ks) NS_CAL "allprop" && has_kid (XElem ns l a ks) NS_CAL "prop") ||
+       (has_kid (XElem ns l a ks) NS_CAL "allcomp" && has_kid (XElem ns l a ks) NS_CAL "comp") ||
+       some_kid (XElem ns l a ks) NS_CAL "comp" rfc_comp_bad) in R.
+  change (rfc_comp_bad (afilter p (XElem ns l a ks))) with
+      ((has_kid (afilter p (XElem ns l a ks)) NS_CAL "allprop" && has_kid (afilter p (XElem ns l a ks)) NS_CAL "prop") ||
+       (has_kid (afilter p (XElem ns l a ks)) NS_CAL "allcomp" && has_kid (afilter p (XElem ns l a ks)) NS_CAL "comp") ||
+       some_kid (afilter p (XElem ns l a ks)) NS_CAL "comp" rfc_comp_bad).
+  apply orb_true_iff in R. destruct R as [R|R3].
+  apply orb_true_iff in R. destruct R as [R1|R2].
+  - apply andb_true_iff in R1. destruct R1 as [A B].
+    rewrite (af_has_kid p _ _ _ A), (af_has_kid p _ _ _ B). reflexivity.
+  - apply andb_true_iff in R2. destruct R2 as [A B].
+    rewrite (af_has_kid p _ _ _ A), (af_has_kid p _ _ _ B). rewrite ?orb_true_r. reflexivity.
+  - assert (S : some_kid (afilter p (XElem ns l a ks)) NS_CAL "comp" rfc_comp_bad = true).
+    { eapply af_some_kid; [|exact R3]. simpl. intros k I. rewrite Forall_forall in IH. apply IH; auto. }
+    rewrite S. rewrite ?orb_true_r. reflexivity.
+Qed.
